@@ -15,7 +15,7 @@ def table (group : String) : Option (List (String × OpS)) :=
   | "lin" => some (ratOps opsLin)
   | "est" => some (ratOps opsEstRat ++ opsEstFloat)
   | "eig" => some (ratOps opsEigRat ++ opsEigFloat)
-  | "sim" => some opsSim
+  | "sim" => some (opsSim ++ opsDual)
   | "tm" => some opsTm
   | "rand" => some opsRand
   | "text" => some opsText
